@@ -2,6 +2,16 @@
 """Regenerates MANIFEST.json from the table below (kept next to the checks so the two cannot drift)."""
 import json
 CLAIMED = {
+ 'C01': ('inductive step on 19 operation kinds (set_columns_width/hidden, set_rows_height/hidden, frozen rows/columns, grid lines, sheet colour, hide/unhide/delete/new/move sheet, insert/delete rows and columns, move rows/columns): from an arbitrary cell-free workbook (<=2 sheets with a symbolic column descriptor and row record each, or <=3 sheets with symbolic visibility) `op; undo` restores every listed observable - sheet names/order/visibility/colour/ids, frozen panes, grid lines, links, and what column x / row y show (width, hidden, style) at symbolic probes',
+         'outside: every operation whose diff carries cell content (input, arrays, clears, cell styles, borders, named styles, paste, autofill, defined names, conditional formats, rename/duplicate sheet, locale/timezone/name/theme) and every structural operation on a sheet that holds cells (parser, set_user_input, evaluator); selection/view state is not compared; pre-state built directly (intercepted Model::from_workbook), history built by the operation itself'),
+ 'C02': ('same family: `op; undo; redo` shows exactly what `op` showed; History alone: any sequence of <=5 push/undo/redo calls behaves as a cursor over the operation list (push truncates after the cursor, undo/redo return the operation they cross, stack sizes = cursor position)',
+         'outside: every operation whose diff carries cell content (input, arrays, clears, cell styles, borders, named styles, paste, autofill, defined names, conditional formats, rename/duplicate sheet, locale/timezone/name/theme) and every structural operation on a sheet that holds cells (parser, set_user_input, evaluator); selection/view state is not compared; pre-state built directly (intercepted Model::from_workbook), history built by the operation itself'),
+ 'C03': ("same family: a second model of the same workbook that applies the primary's outgoing queue entry by entry (the loop of apply_external_diffs; op, optionally undone, optionally redone) shows the same observables",
+         'outside: every operation whose diff carries cell content (input, arrays, clears, cell styles, borders, named styles, paste, autofill, defined names, conditional formats, rename/duplicate sheet, locale/timezone/name/theme) and every structural operation on a sheet that holds cells (parser, set_user_input, evaluator); selection/view state is not compared; pre-state built directly (intercepted Model::from_workbook), history built by the operation itself; the bitcode encoding of the queue is cut out (identity)'),
+ 'C04': ('same 18 failing-capable operations with arguments unconstrained within |a|,|b| <= 4 000 000, sizes in {valid, negative, NaN, +inf}, nonexistent sheets, history holding one entry on the undo or the redo side: whenever the call returns Err the whole workbook (derived PartialEq, every field), both history stacks and the send queue are unchanged',
+         'outside: every operation whose diff carries cell content (input, arrays, clears, cell styles, borders, named styles, paste, autofill, defined names, conditional formats, rename/duplicate sheet, locale/timezone/name/theme) and every structural operation on a sheet that holds cells (parser, set_user_input, evaluator); selection/view state is not compared; pre-state built directly (intercepted Model::from_workbook), history built by the operation itself; spans/counts of range operations <=3 lines (the operations loop over them)'),
+ 'C28': ('after each of the 19 operations, its undo and its redo, and after set_selected_sheet/cell/range and arrow up/left/down/right with unconstrained arguments (Ok or Err): selected sheet < sheet count, selected cell inside the rectangle spanned by the selected range, all inside the grid',
+         'outside: page up/down, area selecting, navigate-to-edge and range expansion (pixel sums over float sizes), duplicate_sheet, sheets with cells; arrow down/right start within 3 lines of the top-left visible cell'),
  'C12': ('(a) one reference: stringify_reference under row/column insertion (all four $ combinations, any in-grid context cell/target/position/count, same or other sheet) equals the insertion map on cells, off-grid => #REF!; (b) ranges: the tree printer to_string_displaced on Node::RangeKind - both corners follow the map (interior insertion grows the range), whole-column/whole-row ranges stay, other-sheet edits leave it alone (coordinates <=120 rows x 30 columns quick, whole grid thorough); (c) the real Model::insert_rows/insert_columns on a cell-free sheet: column descriptors, row records and hyperlinks land on the shifted line (<=2 descriptors/records, 1 link, any position/count)',
          'outside: cell content/value type/style moving through move_cell (text re-entry via set_user_input), CSE arrays, defined names, spills, recomputed values, the parser that produced the node; oracle (a)/(b) trusts the same corner printer with no edit to render the expected coordinates'),
  'C13': ('(a) one reference under row/column deletion: deleted band => #REF!, after => shifted, before => unchanged; (b) ranges through to_string_displaced: each corner by the deletion map, corner on a deleted line => #REF!, whole-column/row ranges untouched; (c) real Model::delete_rows/delete_columns on cell-free sheets: descriptors (cases A-F), row records and links outside the band keep their attributes at the shifted line, links inside the band are dropped',
@@ -20,10 +30,6 @@ CLAIMED = {
          'outside: CF rule formulas (parser), sqref strings, clear-removes-link and its undo, cut/paste orchestration'),
 }
 NA = {
- 'C01': 'not claimed: the UserModel step harnesses (op; undo from a symbolic cell-free workbook) designed in DESIGN.md 5 were not built; Model construction (parser, locale tables behind OnceLock+bitcode) is not encodable and the planned intercept was not implemented',
- 'C02': 'not claimed: same as C01 (needs UserModel/History over Model)',
- 'C03': 'not claimed: same as C01 plus bitcode serialization of the diff queue',
- 'C04': 'not claimed: same as C01',
  'C05': 'evaluator (recursive evaluate_node_in_context over parsed trees, 495 built-ins, HashMap caches) has no bounded encoding within reach',
  'C06': 'needs the whole parse->evaluate pipeline plus f64 parse/print, which are uninterpreted in this encoding',
  'C07': 'quantifies over whole workbooks and evaluation passes; evaluator not encodable',
@@ -41,7 +47,6 @@ NA = {
  'C24': 'zip + XML writer/reader over whole workbooks; I/O-bound byte streams of unbounded length',
  'C25': 'same reader on arbitrary bytes (zip inflate, XML tokenizer in third-party crates); loops grow with input',
  'C26': 'bitcode encode/decode of the whole workbook plus re-parse of every formula on load',
- 'C28': 'not claimed: needs UserModel (see C01); harness not built',
  'C30': 'not claimed: style-pool harness over Styles (deep derived PartialEq on String-bearing structs) not built',
  'C31': 'not claimed: needs Model::set_cells_with_result (see C08)',
  'C32': 'defined names are re-parsed by three different parsers on every structural change; parser-bound like C09/C17',
